@@ -691,7 +691,7 @@ func runEffects(eng *Engine, prop string) []*EffObl {
 	case "C20":
 		return g.globalWriteObligations(libScope(eng))
 	case "C05":
-		return append(append(g.recoverObligations(libScope(eng)), g.deadContextObligations()...), g.meterObligations(libScope(eng))...)
+		return append(append(append(g.recoverObligations(libScope(eng)), g.deadContextObligations()...), g.meterObligations(libScope(eng))...), g.goroutineEscapeObligations(libScope(eng))...)
 	case "C06", "C07":
 		// a memory or time kill is a ContextTerminationError like a CPU kill: the same
 		// two structural obligations decide that nothing intercepts it and that no Lua
@@ -704,7 +704,7 @@ func runEffects(eng *Engine, prop string) []*EffObl {
 	case "C09":
 		return g.firstCallObligations("C09")
 	case "C04":
-		return append(append(g.compilePanicObligations(), g.arityObligations()...), g.stableObligations()...)
+		return append(append(append(g.compilePanicObligations(), g.arityObligations()...), g.stableObligations()...), g.goroutineEscapeObligations(libScope(eng))...)
 	}
 	return nil
 }
